@@ -73,7 +73,7 @@ Definition upd (fs : list feature) (ws : bool) (q : mon) (e : event) : mon :=
       mkMon (adv_names cs) (adv_cache fs st cs []) (q_negd q) (S (q_nlists q)) (q_last q) (q_need_header q)
             (q_expect q) (q_refused q) (q_self_ready q) false
   | EIn RPSelect st it =>
-      match selection_space (mkCfg fs false ws false [] None) it with
+      match selection_space (mkCfg fs false ws false [] None false) it with
       | Some sp =>
           match accept (q_cache q) (q_negd q) st sp with
           | Some (_, f) =>
